@@ -3,6 +3,8 @@ read: sess.trace = [(op, observation)], sess.tags, sess.inflight_log, sess.defin
 list of violations {what, step, ...}.  Every clause is either the conclusion of a proved theorem
 or a literal clause of the property text; monitors are used to search for concrete failing
 inputs and as tests of the clauses that are not proved."""
+import re
+
 from harness import engine
 
 COMPLETED = ("succeeded", "failed", "timeout", "abandoned", "canceled")
@@ -691,6 +693,9 @@ def cont_run(sm):
     s.render()
 
 
+RUNTIME_ERROR = re.compile(r"^[A-Za-z_]+(Exception|Error): ")
+
+
 def c02(sess):
     """Truthfulness of the reported status against the tasks and the provider's in-flight set."""
     out = []
@@ -729,6 +734,12 @@ def c02(sess):
                                         % unhandled, "step": i})
                 if fail_since_rerun:
                     out.append({"what": "workflow succeeded although a fail command ran", "step": i})
+                # a runtime error (an expression that failed to evaluate, a bad delay/count/concurrency value ...)
+                # is logged as "<ExceptionClass>: ..."; task failures are logged as "Execution failed. ..."
+                rt = [e["message"][:80] for e in obs["state"].get("errors") or []
+                      if RUNTIME_ERROR.match(e.get("message") or "")]
+                if rt and not sess.fam.get("w_rerun"):
+                    out.append({"what": "workflow succeeded although a runtime error was logged: %r" % rt[:2], "step": i})
             if status in ("paused", "canceled") and infl and not sess.fam.get("intermediate"):
                 out.append({"what": "workflow %s while %d action(s) are in flight" % (status, len(infl)), "step": i})
             if status in ("pausing", "canceling") and not infl:
